@@ -1018,7 +1018,7 @@ func TestCheck(t *testing.T) {
 		"(2) every call of the front end's full alphabet (graph %d, chain %d, workflow %d calls) inserted before / substituted for every position of each of %d well-formed base programs. "+
 		"(3) late operations on retained objects: %d well-formed scenarios (workflow with field mappings / static values / branch / nested graphs, graph with branches / nested graph, chain and workflow nodes, chain with parallel / branch / nested graphs), "+
 		"each compiled with up to 3 option sets (plain, interrupt-before, interrupt-after), then every pair (late operation, Compile variant) and (Compile variant, late operation)%s, where the late operations (%d in total) are "+
-		"every mutating method of every retained object (WorkflowNode handles incl. End(), Workflow, Graph, Chain, Parallel, ChainBranch, nested graphs) and every mutation of a retained argument (end-node maps incl. GetEndNode(), field-mapping slices, field paths, interrupt-node slices, option and callback slices). "+
+		"every mutating method of every retained object (WorkflowNode handles incl. End(), Workflow, Graph, Chain, Parallel, ChainBranch, nested graphs) and every mutation of a retained argument (end-node maps incl. GetEndNode(), field-mapping slices, field paths, interrupt-node slices, option and callback slices) and of everything reachable from the *GraphInfo that a compile callback of every Compile is given and keeps (Edges, DataEdges, Branches, Nodes maps, the slices in them and in the node infos, the GraphInfo of nested graphs). "+
 		"SAMPLED: %d cases in the remaining children: of every 14, 2 sequences around a pass-through node (or two) between concretely typed producers and consumers declared with interface types (any, two method interfaces), the producer's type or a conflicting type, with branches whose condition reads such types, lowered in a random call / declaration order; "+
 		"1 sequence of pass-through nodes that are connected to each other before anything tells their type and are typed later by branches (with two, one or no target, conditions over string / int / any), typed successors or their predecessor; "+
 		"1 structure with a Compile history (END connected only after a first Compile, a bad option set first, a Compile in the middle of the construction, Compile twice, nested graphs compiled standalone first; Workflows with branches and static values); "+
@@ -1029,7 +1029,7 @@ func TestCheck(t *testing.T) {
 		"Distinct = distinct (front end, state, call sequence); non-trivial = the reference predicts a successful Compile (immutability phase runs: later Add*/Compile, re-run of the first runnable on %d inputs) "+
 		"or at least two accepted calls before the first rejection.",
 		reps, strings.Join(famDesc, ", "), len(fullGraph), len(fullChain), len(fullWorkflow), len(bases),
-		len(scenarios), map[bool]string{false: "", true: " and every ordered pair of late operations followed by Compile"}[cfg.Thorough()], totalLates(), nRandom, len(runInputs))
+		len(scenarios), map[bool]string{false: "", true: " and every ordered pair of late operations (those on a kept GraphInfo excepted) followed by Compile"}[cfg.Thorough()], totalLates(), nRandom, len(runInputs))
 	rep := mon.NewReporter(cfg, "exploration", rule, []string{
 		"node bodies, branch conditions and state handlers are deterministic pure functions of their input (and the per-run state)",
 		"error-ness, error identity (errors.Is with the first error / ErrGraphCompiled) and panics are compared, never message texts",
